@@ -30,6 +30,7 @@ def main() -> int:
     except ModuleNotFoundError as e:
         print(f"no check for {args.prop}: {e}", file=sys.stderr)
         return 2
+    run = lean = None
     try:
         if args.replay:
             return mod.replay(json.loads(Path(args.replay).read_text()))
@@ -49,6 +50,14 @@ def main() -> int:
         return 2
     except Exception:
         traceback.print_exc()
+        if run is not None and lean is not None and run.violations:
+            # a library that violates the property can also derail the harness later on (object maps that no longer fit):
+            # the violations found before, with their failing inputs, are the verdict
+            run.notes.append("the harness crashed after property violations had been found; they are reported")
+            try:
+                return run.finish(lean, getattr(mod, "LEVEL", "proof"), getattr(mod, "ASSUME", []), search=None)
+            except Exception:  # noqa: BLE001
+                traceback.print_exc()
         print(f"TOOL-FAILURE {args.prop}: harness crashed", file=sys.stderr)
         return 2
 
